@@ -344,4 +344,97 @@ theorem fcwLoop_fuel_irrelevant (g : G) (hwf : g.WF) (hn : 2 ≤ g.n) (q : Nat) 
     cases hb : fcwLoop g q (g.n + 2) [if q ≠ 0 then 0 else 1] [if q ≠ 0 then 0 else 1] <;>
     simp_all
 
+/-! ### non-vacuity and edge cases -/
+
+/-- path 0 - 1 - 2, `q = 1` (the cut vertex): hypotheses hold, the answer is `false` -/
+example : (⟨3, [(0, 1), (1, 2)]⟩ : G).WF ∧ 2 ≤ (⟨3, [(0, 1), (1, 2)]⟩ : G).n ∧
+    1 < (⟨3, [(0, 1), (1, 2)]⟩ : G).n ∧
+    (⟨3, [(0, 1), (1, 2)]⟩ : G).isFullyConnectedWithout 1 = some false := by
+  unfold G.WF; decide
+
+/-- path 0 - 1 - 2, `q = 0` (start vertex 1): the answer is `true` -/
+example : (⟨3, [(0, 1), (1, 2)]⟩ : G).WF ∧ 2 ≤ (⟨3, [(0, 1), (1, 2)]⟩ : G).n ∧
+    0 < (⟨3, [(0, 1), (1, 2)]⟩ : G).n ∧
+    (⟨3, [(0, 1), (1, 2)]⟩ : G).isFullyConnectedWithout 0 = some true := by
+  unfold G.WF; decide
+
+/-- path 0 - 1 - 2, `q = 2`: `true` -/
+example : (⟨3, [(0, 1), (1, 2)]⟩ : G).isFullyConnectedWithout 2 = some true := by decide
+
+/-- star with centre 0 on 4 vertices, `q = 0`: `false`; any leaf removed: `true` -/
+example : (⟨4, [(0, 1), (0, 2), (0, 3)]⟩ : G).WF ∧
+    (⟨4, [(0, 1), (0, 2), (0, 3)]⟩ : G).isFullyConnectedWithout 0 = some false ∧
+    (⟨4, [(0, 1), (0, 2), (0, 3)]⟩ : G).isFullyConnectedWithout 1 = some true ∧
+    (⟨4, [(0, 1), (0, 2), (0, 3)]⟩ : G).isFullyConnectedWithout 3 = some true := by
+  unfold G.WF; decide
+
+/-- through the theorems: in the path without 0 the vertex 2 is reachable from 1 avoiding 0 … -/
+example : ReachAvoid ⟨3, [(0, 1), (1, 2)]⟩ 0 1 2 :=
+  (isFullyConnectedWithout_iff ⟨3, [(0, 1), (1, 2)]⟩ (by unfold G.WF; decide) (by decide) 0
+    (by decide)).1 (by decide) 2 (by decide) (by decide)
+
+/-- … and (all-pairs form) the path without its middle vertex is not connected. -/
+example : ¬ ∀ u v, u < 3 → v < 3 → u ≠ 1 → v ≠ 1 → ReachAvoid ⟨3, [(0, 1), (1, 2)]⟩ 1 u v :=
+  fun h => absurd ((isFullyConnectedWithout_iff_all_pairs ⟨3, [(0, 1), (1, 2)]⟩
+    (by unfold G.WF; decide) (by decide) 1 (by decide)).2 h) (by decide)
+
+/-- `n = 2`: `V ∖ {q}` is a single vertex.  The loop starts with `seen = [start]`; the first
+expansion is empty (the only possible neighbour is `q`), and the size test `1 == n - 1` made
+after it answers `true`, with or without the edge, for both `q`. -/
+example : (⟨2, []⟩ : G).isFullyConnectedWithout 0 = some true ∧
+    (⟨2, []⟩ : G).isFullyConnectedWithout 1 = some true ∧
+    (⟨2, [(0, 1)]⟩ : G).isFullyConnectedWithout 0 = some true ∧
+    (⟨2, [(0, 1)]⟩ : G).isFullyConnectedWithout 1 = some true := by decide
+
+/-- the start vertex (0) isolated in `G − q` with `n ≥ 3`: `false` (empty first expansion,
+`1 ≠ n - 1`, then the frontier is empty) -/
+example : (⟨3, [(0, 1), (1, 2)]⟩ : G).isFullyConnectedWithout 1 = some false ∧
+    (⟨4, [(2, 3)]⟩ : G).isFullyConnectedWithout 1 = some false := by decide
+
+/-- `q` isolated in `G`: the answer is connectivity of the rest -/
+example : (⟨3, [(0, 1)]⟩ : G).isFullyConnectedWithout 2 = some true ∧
+    (⟨4, [(0, 1)]⟩ : G).isFullyConnectedWithout 3 = some false ∧
+    (⟨4, [(1, 2), (2, 3)]⟩ : G).isFullyConnectedWithout 0 = some true := by decide
+
+/-- the hypothesis `2 ≤ n` is needed exactly for the existence of the start vertex: `none`
+(Python: `IndexError`) for `n = 0`, and for `n = 1`, `q = 0` (start vertex 1) -/
+example : (⟨0, []⟩ : G).isFullyConnectedWithout 0 = none ∧
+    (⟨0, []⟩ : G).isFullyConnectedWithout 3 = none ∧
+    (⟨1, []⟩ : G).isFullyConnectedWithout 0 = none := by decide
+
+/-- fuel irrelevance instance: fuel `n + 1 = 5` and fuel `100` agree with the model's `n + 2` on
+the path 0 - 1 - 2 - 3 with `q = 3`; fuel `1` is too small there (2 rounds are needed). -/
+example : fcwLoop ⟨4, [(0, 1), (1, 2), (2, 3)]⟩ 3 5 [0] [0] = true ∧
+    fcwLoop ⟨4, [(0, 1), (1, 2), (2, 3)]⟩ 3 100 [0] [0] = true ∧
+    fcwLoop ⟨4, [(0, 1), (1, 2), (2, 3)]⟩ 3 6 [0] [0] = true ∧
+    fcwLoop ⟨4, [(0, 1), (1, 2), (2, 3)]⟩ 3 1 [0] [0] = false := by decide
+
+/-! ### Remark: `q ≥ n` (not rejected by the code)
+
+The Python code does not validate `qudit`.  For `qudit ≥ num_qudits` nothing is removed, the BFS
+runs on the whole graph from vertex 0, but the answer is still `True` only if the number of seen
+vertices is *exactly* `n - 1` after some round.  So the result is neither "G is connected" nor an
+error; it depends on the BFS layer sizes:
+
+* connected path 0 - 1 - 2: seen sizes 1, 2 → `true` (the test fires one vertex early);
+* connected edge 0 - 1 (`n = 2`): seen sizes 1 → 2, the value `n - 1 = 1` is never tested
+  (the test is made only after the first expansion) → `false` although the graph is connected;
+* star with centre 0 on 4 vertices: seen sizes 1 → 4, `3` is skipped → `false`;
+* disconnected `{0 - 1, 2}`: seen sizes 1 → 2 = `n - 1` → `true` although the graph is not
+  connected;
+* `n = 1`: seen size 1 ≠ 0 → `false`.
+These are outside the domain of the theorems above (`q < n`). -/
+example : (⟨3, [(0, 1), (1, 2)]⟩ : G).isFullyConnectedWithout 5 = some true ∧
+    (⟨2, [(0, 1)]⟩ : G).isFullyConnectedWithout 5 = some false ∧
+    (⟨4, [(0, 1), (0, 2), (0, 3)]⟩ : G).isFullyConnectedWithout 4 = some false ∧
+    (⟨3, [(0, 1)]⟩ : G).isFullyConnectedWithout 3 = some true ∧
+    (⟨1, []⟩ : G).isFullyConnectedWithout 1 = some false := by decide
+
+/-- so for `q ≥ n` the answer is not connectivity of `G` (`= G − q`): the connected single edge
+is answered `false`, the disconnected graph `{0 - 1, 2}` is answered `true`. -/
+example : (⟨2, [(0, 1)]⟩ : G).isFullyConnected = true ∧
+    (⟨2, [(0, 1)]⟩ : G).isFullyConnectedWithout 2 = some false ∧
+    (⟨3, [(0, 1)]⟩ : G).isFullyConnected = false ∧
+    (⟨3, [(0, 1)]⟩ : G).isFullyConnectedWithout 3 = some true := by decide
+
 end BqVerif.Graph
